@@ -87,14 +87,19 @@ class Lexer:
 
     key_pattern = r"[\u0080-\U0010FFFFa-zA-Z_][\u0080-\U0010FFFFa-zA-Z0-9_-]*"
 
+    # A keyword ends where a name could not go on. `\b` is not enough: it sees
+    # the end of a word before `-` and before non-ASCII characters that are
+    # not letters, both of which continue a name (`in-stock`, `or☃`).
+    keyword_end_pattern = r"(?![\u0080-\U0010FFFFa-zA-Z0-9_-])"
+
     # `not` or !
-    logical_not_pattern = r"(?:not\b)|!"
+    logical_not_pattern = rf"(?:not{keyword_end_pattern})|!"
 
     # && or `and`
-    logical_and_pattern = r"&&|(?:and\b)"
+    logical_and_pattern = rf"&&|(?:and{keyword_end_pattern})"
 
     # || or `or`
-    logical_or_pattern = r"\|\||(?:or\b)"
+    logical_or_pattern = rf"\|\||(?:or{keyword_end_pattern})"
 
     def __init__(self, *, env: JSONPathEnvironment) -> None:
         self.env = env
@@ -162,15 +167,15 @@ class Lexer:
             ],
             (TOKEN_WILD, r"\*"),
             (TOKEN_FILTER, r"\?"),
-            (TOKEN_IN, r"in\b"),
-            (TOKEN_TRUE, r"[Tt]rue\b"),
-            (TOKEN_FALSE, r"[Ff]alse\b"),
-            (TOKEN_NIL, r"[Nn]il\b"),
-            (TOKEN_NULL, r"[Nn]ull\b"),
-            (TOKEN_NONE, r"[Nn]one\b"),
-            (TOKEN_CONTAINS, r"contains\b"),
-            (TOKEN_UNDEFINED, r"undefined\b"),
-            (TOKEN_MISSING, r"missing\b"),
+            (TOKEN_IN, rf"in{self.keyword_end_pattern}"),
+            (TOKEN_TRUE, rf"[Tt]rue{self.keyword_end_pattern}"),
+            (TOKEN_FALSE, rf"[Ff]alse{self.keyword_end_pattern}"),
+            (TOKEN_NIL, rf"[Nn]il{self.keyword_end_pattern}"),
+            (TOKEN_NULL, rf"[Nn]ull{self.keyword_end_pattern}"),
+            (TOKEN_NONE, rf"[Nn]one{self.keyword_end_pattern}"),
+            (TOKEN_CONTAINS, rf"contains{self.keyword_end_pattern}"),
+            (TOKEN_UNDEFINED, rf"undefined{self.keyword_end_pattern}"),
+            (TOKEN_MISSING, rf"missing{self.keyword_end_pattern}"),
             (TOKEN_LIST_START, r"\["),
             (TOKEN_RBRACKET, r"]"),
             (TOKEN_COMMA, r","),
